@@ -36,7 +36,11 @@ type udpRig struct {
 }
 
 func newUDPRig(srv *server.Server, inline bool, slabCap int, dirtyPat int) (*udpRig, error) {
-	u, err := server.VerifC10NewUDP(scripted, srv, inline, 64, slabCap)
+	return newUDPRigBind(srv, inline, slabCap, dirtyPat, false)
+}
+
+func newUDPRigBind(srv *server.Server, inline bool, slabCap int, dirtyPat int, wildcard bool) (*udpRig, error) {
+	u, err := server.VerifC10NewUDPBind(scripted, srv, inline, 64, slabCap, wildcard)
 	if err != nil {
 		return nil, err
 	}
@@ -282,14 +286,15 @@ func execUDP(f []string) vlib.Res {
 		udpA.close()
 		udpB.close()
 		udpA, udpB = nil, nil
-		udpInline = f[2] == "inline"
+		udpInline = f[2] == "inline" || f[2] == "winline"
+		wild := strings.HasPrefix(f[2], "w")
 		slabCap := vlib.Atoi(f[3])
 		pat := int(vlib.UnHex(f[4])[0])
 		var err error
-		if udpA, err = newUDPRig(nil, udpInline, slabCap, -1); err != nil {
+		if udpA, err = newUDPRigBind(nil, udpInline, slabCap, -1, wild); err != nil {
 			return vlib.Res{Impl: "rig-error " + err.Error()}
 		}
-		if udpB, err = newUDPRig(nil, udpInline, slabCap, pat); err != nil {
+		if udpB, err = newUDPRigBind(nil, udpInline, slabCap, pat, wild); err != nil {
 			return vlib.Res{Impl: "rig-error " + err.Error()}
 		}
 		return vlib.Res{Impl: "ok inline=" + vlib.B(udpA.u.Inline()), Oracle: "-"}
